@@ -80,14 +80,16 @@ def queries(ctx):
     add("sort", "nolock", ni=5, nl=5, suffix="_l5cp", unwindset=sort_uw(5), canon=True, cvp=True, tiers=T, timeout=3400)
     # concurrent half (Engine S): two threads on the locked entry points
     SCEN = {1: "push_back_vs_pop_pop", 2: "pop_vs_pop_single_item", 3: "push_sorted_x2_ties", 4: "dequeue_pushfront_popback_vs_popfront",
-            5: "fifo_push_vs_trypop_pop", 6: "unchain_vs_chain_back"}
+            5: "fifo_push_vs_trypop_pop", 6: "unchain_vs_chain_back",
+            # racing insertions at the same end (general forward/backward/model oracle, see lc.c INSERT_RACE)
+            7: "dequeue_chain_front_vs_push_front", 8: "fifo_chain_back_vs_push_back", 9: "chain_sorted_vs_push_sorted", 10: "chain_front_vs_chain_front"}
     for sc, nm in SCEN.items():
-        tiers = ("quick", "thorough") if sc in (1, 2) else ("thorough",)
+        tiers = ("quick", "thorough") if sc in (1, 2, 7, 8) else ("thorough",)
         qs.append(Q("conc_%s_r3" % nm, [], defs=["SCEN=%d" % sc], engine="S", units=UNITS + ["parsec/include/parsec/sys/atomic-gcc.h"],
                     gen=seqir(["lc.c"], threads=["thread0", "thread1"], rounds=3), unwind=8, timeout=2400, slow=True, tiers=tiers,
                     info={"symbolic": ["schedule: every SC interleaving with <= 3 scheduling slots per thread"],
                           "bounds": {"rounds": 3, "threads": 2}, "stubs": [],
-                          "functions": ["parsec_list_push_back/pop_front/push_sorted/unchain/chain_back", "parsec_dequeue_*", "parsec_fifo_*", "parsec_atomic_lock/unlock/trylock"]}))
+                          "functions": ["parsec_list_push_back/push_front/pop_front/push_sorted/chain_sorted/unchain/chain_front/chain_back", "parsec_dequeue_*", "parsec_fifo_*", "parsec_atomic_lock/unlock/trylock"]}))
     return qs
 
 def mutants(ctx):
@@ -110,6 +112,10 @@ def mutants(ctx):
                "    parsec_list_item_t* item = parsec_list_nolock_pop_front(list);", queries=["conc_pop_vs_pop_single_item_r3"]),
         Mutant("push_back_reads_tail_before_lock", LH, "    parsec_list_lock(list);\n    item->list_prev = _TAIL(list);\n    _TAIL(list)->list_next = item;",
                "    item->list_prev = _TAIL(list);\n    parsec_list_lock(list);\n    _TAIL(list)->list_next = item;", queries=["conc_push_back_vs_pop_pop_r3"]),
+        Mutant("chain_front_reads_head_before_lock", LH, "    parsec_list_lock(list);\n    tail->list_next = _HEAD(list);\n    _HEAD(list)->list_prev = tail;",
+               "    tail->list_next = _HEAD(list);\n    parsec_list_lock(list);\n    _HEAD(list)->list_prev = tail;", queries=["conc_dequeue_chain_front_vs_push_front_r3"]),
+        Mutant("chain_back_reads_tail_before_lock", LH, "    parsec_list_lock(list);\n    items->list_prev = _TAIL(list);\n    _TAIL(list)->list_next = items;",
+               "    items->list_prev = _TAIL(list);\n    parsec_list_lock(list);\n    _TAIL(list)->list_next = items;", queries=["conc_fifo_chain_back_vs_push_back_r3"]),
         Mutant("pop_front_leaves_lock_taken", LH, "    parsec_list_item_t* item = parsec_list_nolock_pop_front(list);\n    parsec_list_unlock(list);\n    return item;",
                "    parsec_list_item_t* item = parsec_list_nolock_pop_front(list);\n    return item;", queries=["pop_front_lock"]),
     ]
